@@ -25,6 +25,17 @@ use crate::error::Error;
 use super::{ExprType, FlagsState, GeneratorState};
 
 impl<'a> GeneratorState<'a> {
+    // A store changes memory and no flag: what the flags were said to tell about a memory
+    // cell may not be true any more
+    fn forget_memory_flags(&mut self) {
+        if matches!(
+            self.flags,
+            FlagsState::Absolute(..) | FlagsState::AbsoluteX(_) | FlagsState::AbsoluteY(_)
+        ) {
+            self.flags = FlagsState::Unknown;
+        }
+    }
+
     pub(crate) fn generate_assign(
         &mut self,
         left: &ExprType,
@@ -217,6 +228,7 @@ impl<'a> GeneratorState<'a> {
                         match left {
                             ExprType::Absolute(_, _, _) => {
                                 self.asm(STX, left, pos, high_byte)?;
+                                self.forget_memory_flags();
                                 /*
                                 if !eight_bits {
                                     if *offset == 0 {
@@ -256,6 +268,7 @@ impl<'a> GeneratorState<'a> {
                                     && v.var_type != VariableType::CharPtr
                                 {
                                     self.asm(STX, left, pos, high_byte)?;
+                                    self.forget_memory_flags();
                                 } else {
                                     if self.acc_in_use {
                                         self.sasm(PHA)?;
@@ -289,6 +302,7 @@ impl<'a> GeneratorState<'a> {
                                         .syntax_error("Code too complex for the compiler", pos));
                                 }
                                 self.asm(STX, left, pos, high_byte)?;
+                                self.forget_memory_flags();
                                 self.tmp_in_use = true;
                                 return Ok(ExprType::Tmp(false));
                             }
@@ -301,6 +315,7 @@ impl<'a> GeneratorState<'a> {
                         match left {
                             ExprType::Absolute(_, _, _) => {
                                 self.asm(STY, left, pos, high_byte)?;
+                                self.forget_memory_flags();
                                 /*
                                 if !eight_bits {
                                     if *offset == 0 {
@@ -338,6 +353,7 @@ impl<'a> GeneratorState<'a> {
                                 let v = self.compiler_state.get_variable(variable);
                                 if v.memory == VariableMemory::Zeropage {
                                     self.asm(STY, left, pos, high_byte)?;
+                                    self.forget_memory_flags();
                                 } else {
                                     if self.acc_in_use {
                                         self.sasm(PHA)?;
@@ -371,6 +387,7 @@ impl<'a> GeneratorState<'a> {
                                         .syntax_error("Code too complex for the compiler", pos));
                                 }
                                 self.asm(STY, left, pos, high_byte)?;
+                                self.forget_memory_flags();
                                 self.tmp_in_use = true;
                                 return Ok(ExprType::Tmp(false));
                             }
